@@ -38,4 +38,7 @@ def units(ctx):
     from vlib.pyvc.unit import contract_unit
     us += [contract_unit(c, world_setup=specs.setup)
            for c in specs.invoked_delegate_contracts()]
+    from contracts import evalglue as _eg
+    from vlib.pyvc.unit import contract_unit as _cu
+    us += [_cu(c, world_setup=_eg.setup_nodes) for c in _eg.node_contracts()]
     return us
